@@ -51,6 +51,9 @@ def universe(depth2=True, big=False):
     add({"k": "dep", "bound": cls[7], "pred": "even"})
     add({"k": "dep", "bound": cls[2], "pred": "any"})
     add({"k": "dep", "bound": cls[1], "pred": "any"})
+    # bounds that are subclasses of each other (identical runtime protocols): the order of the bounds is SAME
+    add({"k": "dep", "bound": cls[10], "pred": "any"})
+    add({"k": "dep", "bound": cls[11], "pred": "any"})
     # tuple[...]
     tup = add({"k": "cls", "c": 0, "builtin": "tuple"})
     add({"k": "prod", "args": [cls[2], cls[4]], "bound": tup})
